@@ -69,17 +69,37 @@ Print Assumptions C33_hello_output.
    for good: _stop waits for the sender, the sender waits for the lock DeviceUpdate holds.
    Same for a receiver that takes the lock. *)
 Theorem C33_sender_lock_under_update_blocks :
-  (forall f rl, inv f -> passive f = false -> link_up f = true ->
-     device_update_during (mkDisc true rl) f false TickDuring = Blocked WaitHelloSender) /\
-  (forall f sl, inv f -> passive f = false -> link_up f = true ->
-     device_update_during (mkDisc sl true) f false FrameDuring = Blocked WaitReceiver) /\
-  run (mkDisc true false) (init [false]) [Dev 0 true; DevDuring 0 false TickDuring] = Blocked WaitHelloSender /\
+  (forall f rl us, inv f -> passive f = false -> link_up f = true ->
+     device_update_during (mkDisc true rl us) f false TickDuring = Blocked WaitHelloSender) /\
+  (forall f sl us, inv f -> passive f = false -> link_up f = true ->
+     device_update_during (mkDisc sl true us) f false FrameDuring = Blocked WaitReceiver) /\
+  run (mkDisc true false false) (init [false]) [Dev 0 true; DevDuring 0 false TickDuring] = Blocked WaitHelloSender /\
   (exists s, run head_discipline (init [false]) [Dev 0 true; DevDuring 0 false TickDuring; Dev 0 true] = Ok s).
 Proof.
   split; [exact sender_lock_blocks |]. split; [exact receiver_lock_blocks |].
   split; [vm_compute; reflexivity |]. eexists. vm_compute. reflexivity.
 Qed.
 Print Assumptions C33_sender_lock_under_update_blocks.
+
+(* The up event has to be DELIVERED: the device server (protocols/device.Server.notify) calls only its
+   current subscribers. On HEAD the subscription made in newNetIfa survives every history - _stop does
+   not give it up - so [last_up] in C33_hellos_after_up is what the interface actually saw. *)
+Theorem C33_stays_subscribed : forall (kinds : list bool) (evs : list event) s i f,
+  run head_discipline (init kinds) evs = Ok s -> nth_error s i = Some f -> subscribed f = true.
+Proof. exact stays_subscribed. Qed.
+Print Assumptions C33_stays_subscribed.
+
+(* ... and that is necessary: with a _stop that unsubscribes (seeded change C33-2r3) up, down, up
+   leaves an active interface whose link is up unsubscribed and silent. (With the real device server
+   the Unsubscribe call from inside notify() additionally deadlocks on the server's own lock.) *)
+Theorem C33_unsubscribe_in_stop_loses_link_up :
+  match run (mkDisc false false true) (init [false]) [Dev 0 true; Dev 0 false; Dev 0 true] with
+  | Ok [f] => subscribed f = false /\ sends_hellos f = false /\
+              last_up [Dev 0 true; Dev 0 false; Dev 0 true] 0 false = true
+  | _ => False
+  end.
+Proof. exact unsubscribe_in_stop_loses_link_up. Qed.
+Print Assumptions C33_unsubscribe_in_stop_loses_link_up.
 
 (* Non-vacuity: an active and a passive interface, the active link flaps twice and is up again. *)
 Example C33_example_flaps :
